@@ -264,7 +264,11 @@ def gen_case(rng, root_user, big=False):
         if r < 0.45:
             continue
         if r < 0.70:
-            pre.append((loc, "same"))
+            if e["kind"] == "file" and rng.random() < 0.6:
+                # identical bytes but other mode/owner/mtime, or identical metadata but other bytes
+                pre.append((loc, rng.choice(["file-samedata", "file-samedata", "file-samemeta"])))
+            else:
+                pre.append((loc, "same"))
         elif r < 0.82:
             pre.append((loc, rng.choice(["file", "dir", "sym-dangling", "sym-dir", "fifo"])))
         elif r < 0.90 and e["kind"] != "dir":
@@ -275,6 +279,14 @@ def gen_case(rng, root_user, big=False):
     for _ in range(rng.randint(0, 3)):
         parent = rng.choice(dirs)
         pre.append((parent + (rng.choice(names) + rng.choice(["", ".keep"]),), rng.choice(["file", "dir", "file"])))
+    # a good share of cases replaces a live file by one with identical bytes but other metadata
+    # (or identical metadata but other bytes): the shapes an "unchanged, skip the copy" shortcut hits
+    files = [e for e in cset if e["kind"] == "file"]
+    if files and rng.random() < 0.6:
+        e = rng.choice(files)
+        newname = e["loc"][:-1] + (e["loc"][-1] + "#new",)
+        pre = [(l, w) for l, w in pre if l != e["loc"] and l != newname]
+        pre.insert(0, (e["loc"], rng.choice(["file-samedata", "file-samedata", "file-samemeta"])))
     offmode = rng.choice(["offset", "offset", "offset", "offset-missing", "none"])
     if offmode == "offset-missing":
         pre = []
@@ -303,6 +315,7 @@ def build_root(base, case, rng_seed):
         return os.path.join(cur, loc[-1])
 
     n = 0
+    late = []            # (path, mtime) to set after the pass that gives everything an old mtime
     for loc, what in case["pre"]:
         p = ensure_parent(loc)
         if p is None or os.path.lexists(p):
@@ -312,6 +325,18 @@ def build_root(base, case, rng_seed):
             what = {"dir": "dir", "file": "file", "sym": "sym-dangling", "fifo": "fifo", "dev": "file"}[kinds[loc]["kind"]]
         if what == "dir":
             os.mkdir(p, rng.choice([0o755, 0o711, 0o770]))
+        elif what in ("file-samedata", "file-samemeta"):
+            e = kinds[loc]
+            with open(p, "wb") as f:
+                f.write(e["data"] if what == "file-samedata" else b"other-bytes-%d" % n)
+            if what == "file-samedata":
+                os.chmod(p, 0o600 if (e.get("mode", 0o644) & 0o7777) != 0o600 else 0o640)
+            else:
+                os.chmod(p, e.get("mode", 0o644) & 0o7777)
+                if os.getuid() == 0:
+                    os.lchown(p, e.get("uid", 0), e.get("gid", 0))
+                late.append((p, e.get("mtime", 0)))
+            continue
         elif what in ("file", "file-long", "file-linked"):
             with open(p, "wb") as f:
                 f.write(b"OLD-CONTENT-OF-%d" % n if what != "file-long" else b"L" * 40)
@@ -335,6 +360,8 @@ def build_root(base, case, rng_seed):
         for name in fn + dn:
             k += 1
             os.utime(os.path.join(d, name), (OLD_T + k, OLD_T + k), follow_symlinks=False)
+    for p, mt in late:
+        os.utime(p, (mt, mt))
     os.utime(root, (OLD_T, OLD_T))
 
 
